@@ -3,42 +3,49 @@
 
    Model.C06_HsOrder : the receive side of the handshake coroutines as a finite automaton over
                        record-level events (epoch, payload), parametric in the gate table;
-   Gen.C06_Gates     : every self._getMsg(...) call site, regenerated from /repo on each run;
+   Gen.C06_Gates     : every self._getMsg(...) call site, every unexpected_message abort site with
+                       its conditions, and the defragmenter pieces they rely on, regenerated from
+                       /repo on each run;
    Spec.C06_HsGrammar: what the RFCs let an endpoint accept, as regular expressions.
 
    Every statement quantifies over ALL traces (lists of events of any length) or over ALL
    automaton states; the finite product automaton / state set is decided by vm_compute and
-   lifted by the soundness lemma Proofs.C06_Sound.check_sound. *)
+   lifted by the soundness lemma Proofs.C06_Sound.check_sound.
+
+   History: before /repo commit 8fbaa01 the inclusion, the TLS 1.3 Finished ordering and the
+   TLS 1.3 interleaving ban were false of the faithful model (theorems ..._refuted with witness
+   traces, ..._partial for traces avoiding six classes of deviating edges: NewSessionTicket
+   accepted unannounced / from a client, announced ticket skipped, ChangeCipherSpec accepted
+   with a partial message buffered, protected or interleaved TLS 1.3 ChangeCipherSpec ignored,
+   first ServerHello/ClientHello not ending its record).  The witnesses are kept below as
+   [former_deviation_traces_rejected]. *)
 From Coq Require Import ZArith List Bool String.
 From TV Require Import Model.C06_GateTypes Model.C06_HsOrder Spec.C06_HsGrammar Model.C06_Check
                        Gen.C06_Gates Proofs.C06_Sound Proofs.C06_Incl.
 Import ListNotations.
 
-(* The gate table read from the source is the one the automaton is built on: a widened,
-   removed, reordered or added _getMsg call site breaks this obligation. *)
+(* The tables read from the source are the ones the automaton is built on: a widened, removed,
+   reordered or added _getMsg call site, a changed condition of an ordering check, or a changed
+   defragmenter primitive breaks one of these obligations. *)
 Theorem gates_as_modelled : extracted_gates = modelled_gates.
 Proof. exact gates_eq. Qed.
+Theorem order_checks_as_modelled : extracted_order_checks = modelled_order_checks.
+Proof. exact order_checks_eq. Qed.
+Theorem defragmenter_as_modelled : extracted_defrag = modelled_defrag.
+Proof. exact defrag_eq. Qed.
 
-(* FULL STATEMENT (false of the faithful model):
-     forall c w, In c all_cfgs -> completes modelled_gates c w = true -> allowed c w = true.
-   Refuted: for each known deviation class there is a configuration and a trace that
-   completes the handshake, lies outside the grammar, and uses an edge of that class.
-   Every witness was replayed on the implementation (design/C06.md, findings). *)
-Theorem accepted_subset_allowed_refuted :
+(* Language inclusion, full: whatever trace makes the endpoint complete its handshake is a
+   sequence the grammar allows -- every configuration, traces of any length. *)
+Theorem accepted_subset_allowed : forall c w,
+  In c all_cfgs -> completes modelled_gates c w = true -> allowed c w = true.
+Proof. exact incl_full. Qed.
+
+(* The traces that were accepted before 8fbaa01 (one per deviation class and role) abort now. *)
+Theorem former_deviation_traces_rejected :
   Forall (fun x => let '(d, c, w) := x in
-            completes modelled_gates c w = true /\ allowed c w = false /\
-            uses_dev modelled_gates c w = true) deviation_witnesses
-  /\ Forall (fun x => In (snd (fst x)) all_cfgs) deviation_witnesses.
-Proof. exact (conj witnesses_refute witnesses_in_cfgs). Qed.
-
-(* Proved part: every accepted trace of every configuration that does not go through one of
-   the known deviating edges (Model.C06_Check.dev_of) is in the grammar.  Missing for the full
-   statement: exactly those edges. *)
-Theorem accepted_subset_allowed_partial : forall c w,
-  In c all_cfgs ->
-  completes modelled_gates c w = true -> uses_dev modelled_gates c w = false ->
-  allowed c w = true.
-Proof. exact incl_partial. Qed.
+            completes modelled_gates c w = false /\ allowed c w = false) deviation_witnesses
+  /\ completes modelled_gates ord13_cfg ord13_witness = false.
+Proof. exact former_rejected. Qed.
 
 (* Application data (empty or not, under any keys) offered at any handshake position aborts;
    in particular none is delivered before the peer's Finished has been accepted. *)
@@ -48,25 +55,20 @@ Theorem no_appdata_before_finished : forall c s e,
 Proof. exact noapp. Qed.
 
 (* <= 1.2: every accepted trace contains exactly one ChangeCipherSpec, unprotected and with
-   value 1, and exactly one Finished, after it, under the new keys, as its last event. *)
+   value 1, and exactly one Finished, after it, under the new keys, as its last event.
+   1.3 (finished_order_tls13; partial before 8fbaa01): exactly one Finished, under the handshake
+   keys, ending its record, as the last event. *)
 Theorem ccs_finished_order : forall c w,
-  In c all_cfgs -> c_v13 c = false ->
-  completes modelled_gates c w = true -> matches (ccs_fin_order c) w = true.
-Proof. exact order_v12. Qed.
+  In c all_cfgs -> completes modelled_gates c w = true -> matches (ccs_fin_order c) w = true.
+Proof. exact order_full. Qed.
 
-(* 1.3, FULL STATEMENT (false): every accepted trace contains exactly one Finished, under the
-   handshake keys, ending its record, as its last event.  Proved for traces that avoid the known
-   deviating edges; refuted by a ServerHello that does not end its record, after which a whole
-   unprotected server flight is accepted from the defragmenter's buffer. *)
-Theorem finished_order_tls13_partial : forall c w,
-  In c all_cfgs -> c_v13 c = true ->
-  completes modelled_gates c w = true -> uses_dev modelled_gates c w = false ->
-  matches (ccs_fin_order c) w = true.
-Proof. exact order_v13_partial. Qed.
-
-Theorem finished_order_tls13_refuted :
-  In ord13_cfg all_cfgs /\ completes modelled_gates ord13_cfg ord13_witness = true /\ matches (ccs_fin_order ord13_cfg) ord13_witness = false.
-Proof. exact order_v13_refuted. Qed.
+Theorem finished_order_tls13 : forall c w,
+  In c all_cfgs -> c_v13 c = true -> completes modelled_gates c w = true ->
+  matches (seqs [Star (alts [At AOther; At (ACcs E0); At (ACcs E1)]); At (AMsg E1 Fin MustAlign)]) w = true.
+Proof.
+  intros c w Hc Hv Hd. pose proof (order_full c w Hc Hd) as H.
+  unfold ccs_fin_order in H. rewrite Hv in H. exact H.
+Qed.
 
 (* After completion no event whatsoever leads back to a handshake position ... *)
 Theorem renegotiation_never_starts : forall c s e,
@@ -84,36 +86,27 @@ Theorem renegotiation_refused : forall c s a,
   else pc (fst r) = P_Post /\ gotc (fst r) = gotc s /\ snd r = Some 100%Z.
 Proof. exact reneg. Qed.
 
-(* TLS 1.3, FULL STATEMENT (false): while a handshake message is partially received every
-   record of another content type aborts.  Proved for everything except a ChangeCipherSpec
-   with value 1 (which tlslite-ng ignores before it checks for interleaving): *)
-Theorem tls13_no_interleave_partial : forall c s e p,
+(* TLS 1.3, full (partial before 8fbaa01: a ChangeCipherSpec was ignored): while a handshake
+   message is partially received every record of another content type aborts. *)
+Theorem tls13_no_interleave : forall c s e p,
   In c all_cfgs -> c_v13 c = true ->
   handshaking s = true -> v13_at c (pc s) = true -> buf s = BPartial ->
-  In p non_hs_payloads -> p <> PCcs true ->
+  In p non_hs_payloads ->
   is_abort (fst (step modelled_gates c s (e, p))) = true.
-Proof. exact interleave_partial. Qed.
-
-Theorem tls13_no_interleave_refuted :
-  exists c s, In c all_cfgs /\ c_v13 c = true /\ handshaking s = true /\
-              v13_at c (pc s) = true /\ buf s = BPartial /\
-              is_abort (fst (step modelled_gates c s (E0, PCcs true))) = false.
-Proof. exact interleave_refuted. Qed.
+Proof. exact interleave_full. Qed.
 
 (* the hypotheses of the theorems above are satisfiable by non-trivial states *)
 Example ex_honest_tls12_client :
   completes modelled_gates (cl12 KEcdhe true false false)
     [hs E0 SH; hs E0 CertN; hs E0 SKE; hs E0 CR; hs E0 SHD; hs E0 NST; ccs0; hs E1 Fin] = true
-  /\ uses_dev modelled_gates (cl12 KEcdhe true false false)
-    [hs E0 SH; hs E0 CertN; hs E0 SKE; hs E0 CR; hs E0 SHD; hs E0 NST; ccs0; hs E1 Fin] = false.
-Proof. vm_compute. split; reflexivity. Qed.
+  /\ In (cl12 KEcdhe true false false) all_cfgs.
+Proof. split; [vm_compute; reflexivity|unfold all_cfgs; in_list]. Qed.
 
 Example ex_honest_tls13_server :
   completes modelled_gates (sv13 KCert13 true true false)
     [hs E0 CH; ccs0; hs E0 CH; hs E1 CertN; hs E1 CV; hs E1 Fin] = true
-  /\ uses_dev modelled_gates (sv13 KCert13 true true false)
-    [hs E0 CH; ccs0; hs E0 CH; hs E1 CertN; hs E1 CV; hs E1 Fin] = false.
-Proof. vm_compute. split; reflexivity. Qed.
+  /\ In (sv13 KCert13 true true false) all_cfgs.
+Proof. split; [vm_compute; reflexivity|unfold all_cfgs; in_list]. Qed.
 
 Example ex_partial_state :
   let s := mk_st C13_CRCert BPartial false E1 in
